@@ -285,7 +285,31 @@ def r_simdate(E):
     cmp_ = [n for n in ast.walk(fn) if isinstance(n, ast.Compare) and any(d in norm(n) for d in derived)
             and isinstance(n.ops[0], (ast.Lt, ast.LtE, ast.Gt, ast.GtE))]
     if len(cmp_) != 1:
-        res.undecided.append("filter_hourly_quantities_to_filter: filtering comparison not found")
+        # no comparison of timestamps with the date: is the cut made by *position* (rows counted from the date)? That
+        # presumes one row per hour from the first one on — false for series with a daylight-saving gap and for sums of
+        # periods that do not touch — and a series that starts after the date gives a negative count, i.e. its tail
+        pos = None
+        for n in nodes_through_helpers(fn, pm.helper_finder("ExplainableHourlyQuantities"), depth=2):
+            h = None
+            if isinstance(n, ast.Call) and isinstance(n.func, ast.Attribute) and any(
+                    d in norm(a) for a in n.args for d in derived):
+                h = pm.helper_finder("ExplainableHourlyQuantities")(n.func.attr)
+            for x in ([n] if h is None else list(ast.walk(h))):
+                if isinstance(x, ast.Subscript) and isinstance(x.slice, ast.Slice) and (
+                        (isinstance(x.value, ast.Attribute) and x.value.attr in ("iloc", "values"))
+                        or "value" in norm(x.value)):
+                    pos = x
+                if isinstance(x, ast.Call) and isinstance(x.func, ast.Attribute) and x.func.attr in ("tail", "head"):
+                    pos = x
+        if not cmp_ and pos is not None:
+            res.findings.append(Finding(
+                "R-SIMDATE", "filter by position",
+                f"the simulation filter no longer compares timestamps with the simulation date: it cuts the series by "
+                f"position (`{norm(pos)[:60]}`) after counting hours from its first timestamp. A series that starts after "
+                f"the date yields a negative count (only its last hours are kept), and a series with a gap (daylight "
+                f"saving, periods that do not touch) is cut at the wrong row", rel, pos.lineno, fn.name))
+        else:
+            res.undecided.append("filter_hourly_quantities_to_filter: filtering comparison not found")
     else:
         c = cmp_[0]
         left_is_date = any(d in norm(c.left) for d in derived)
@@ -364,9 +388,13 @@ def r_delay(E):
         # comes out of a dict / set keyed by the step visits a step listed twice only once
         from ..astutil import fully_expanded
         for loop in [n for n in ast.walk(fn) if isinstance(n, ast.For)]:
+            # the loop variable that stands for the step: the one whose .jobs are read (for a dict's items(), the key)
             tnames = {x.id for x in ast.walk(loop.target) if isinstance(x, ast.Name)}
-            walks_jobs = any(isinstance(i, ast.For) and isinstance(i.iter, ast.Attribute) and i.iter.attr == "jobs"
-                             and isinstance(i.iter.value, ast.Name) and i.iter.value.id in tnames for i in ast.walk(loop))
+            if isinstance(loop.iter, ast.Call) and isinstance(loop.iter.func, ast.Attribute) \
+                    and loop.iter.func.attr == "items" and isinstance(loop.target, ast.Tuple) and loop.target.elts:
+                tnames = {x.id for x in ast.walk(loop.target.elts[0]) if isinstance(x, ast.Name)}
+            walks_jobs = any(isinstance(i, ast.Attribute) and i.attr == "jobs" and isinstance(i.value, ast.Name)
+                             and i.value.id in tnames for i in ast.walk(loop))
             if not walks_jobs:
                 continue
             it = fully_expanded(loop.iter, fn)
@@ -519,7 +547,53 @@ def r_cumul(E):
             "the instances provisioned for it) is too low for data that must still be kept", rel, fn.lineno, fn.name))
     elif verdict is None:
         res.undecided.append("automatic_storage_dumps_after_storage_duration: rounding of the storage duration not recognised")
-    res.floor = 4
+    # every job of the storage is either a writer or a deleter: the filter of storage_needed and the filter of
+    # storage_freed on the job's data_stored are each other's negation (a job that falls in neither group — data_stored
+    # exactly 0 under a sign test — drops out of the delta, the base need is never added and nothing is provisioned)
+    res.instances += 1
+    from ..astutil import nodes_through_helpers, substitute
+    from ..paths import formula, implies
+    filt = {}
+    for pname in ("storage_needed", "storage_freed"):
+        owner, pf = pm.find_method("Storage", pname)
+        if pf is None:
+            res.undecided.append(f"Storage.{pname} vanished")
+            continue
+        tests = []
+        for n in nodes_through_helpers(pf, pm.helper_finder("Storage"), depth=3):
+            ts = []
+            if isinstance(n, ast.If):
+                ts = [n.test]
+            elif isinstance(n, ast.comprehension):
+                ts = list(n.ifs)
+            elif isinstance(n, ast.IfExp):
+                ts = [n.test]
+            for t in ts:
+                # a predicate handed over as a lambda and applied on the spot reads as its body
+                while isinstance(t, ast.Call) and isinstance(t.func, ast.Lambda) and not t.keywords \
+                        and len(t.args) == len(t.func.args.args):
+                    t = substitute(t.func.body, {a.arg: v for a, v in zip(t.func.args.args, t.args)})
+                bases = {x.value.id for x in ast.walk(t) if isinstance(x, ast.Attribute) and x.attr == "data_stored"
+                         and isinstance(x.value, ast.Name)}
+                if len(bases) == 1 and not any(norm(t) == norm(u) for u in tests):
+                    tests.append(substitute(t, {next(iter(bases)): ast.Name(id="JOB", ctx=ast.Load())}))
+        if tests:
+            f = formula(tests[0]) if len(tests) == 1 else ("and", [formula(t) for t in tests])
+            filt[pname] = (f, " and ".join(norm(t) for t in tests))
+    if len(filt) == 2:
+        (fn_, tn), (ff, tf) = filt["storage_needed"], filt["storage_freed"]
+        if not (implies(("not", fn_), ff) and implies(ff, ("not", fn_))):
+            res.findings.append(Finding(
+                "R-CUMUL", "writers / deleters partition",
+                f"storage_needed takes the jobs with `{tn[:60]}` and storage_freed those with `{tf[:60]}`: the two tests "
+                f"are not each other's negation, so some job (data_stored exactly 0) is in neither group or in both — it "
+                f"drops out of the storage delta (with only such jobs the base need is never added and no instance is "
+                f"provisioned) or is counted twice", pm.path_of("Storage"), pm.find_method("Storage", "storage_needed")[1].lineno,
+                "Storage.storage_needed"))
+    elif filt or True:
+        if len(filt) < 2:
+            res.undecided.append("Storage.storage_needed / storage_freed: the test on data_stored that selects the jobs was not found")
+    res.floor = 5
     return res
 
 
@@ -1658,4 +1732,58 @@ def r_attach(E):
                 fn.lineno, "ExplainableObject.set_modeling_obj_container"))
             break
     res.floor = 3
+    return res
+
+
+# ---------------------------------------------------------------------------------------------- R-TRUTHY (C07)
+@rule("R-TRUTHY")
+def r_truthy(E):
+    pm = E.pm
+    res = RuleResult("R-TRUTHY", "where the explanation code decides whether a value has a parent by the parent's truth "
+                                 "value (`if self.left_parent:`), no explainable class that is routinely a parent — the "
+                                 "empty value, scalars, the base class — defines __len__ / __bool__: a falsy parent is "
+                                 "dropped from the formula, and a value whose parents are all falsy cannot be explained")
+    # bare truthiness tests of a parent in the explainable base class
+    rel = pm.path_of("ExplainableObject")
+    bare = []
+    for m in pm.own_methods("ExplainableObject"):
+        for n in ast.walk(m):
+            tests = []
+            if isinstance(n, (ast.If, ast.IfExp, ast.While)):
+                tests = [n.test]
+            elif isinstance(n, ast.comprehension):
+                tests = list(n.ifs)
+            for t in tests:
+                parts = t.values if isinstance(t, ast.BoolOp) else [t]
+                for p_ in parts:
+                    if isinstance(p_, ast.UnaryOp) and isinstance(p_.op, ast.Not):
+                        p_ = p_.operand
+                    if isinstance(p_, ast.Attribute) and p_.attr in ("left_parent", "right_parent"):
+                        bare.append((m, p_))
+    res.instances += 1
+    falsy = {}
+    for cn in sorted(pm.classes):
+        if "ExplainableObject" not in pm.mro(cn):
+            continue
+        res.instances += 1
+        for m in pm.own_methods(cn):
+            if m.name in ("__len__", "__bool__"):
+                falsy[cn] = m
+    # hourly series are never empty while they are parents (an emptied series is replaced by the empty value), and they
+    # need len(): every other class of the hierarchy, and what inherits from it, must stay truthy
+    never_empty = {"ExplainableHourlyQuantities"}
+    if bare:
+        for cn, m in sorted(falsy.items()):
+            if cn in never_empty or any(k in never_empty for k in pm.mro(cn)[1:]) and cn not in ("EmptyExplainableObject",):
+                continue
+            mth, node = bare[0]
+            res.findings.append(Finding(
+                "R-TRUTHY", f"{cn}.{m.name} makes parents falsy",
+                f"{cn} defines {m.name}, so its instances can be falsy, while ExplainableObject.{mth.name} decides whether a "
+                f"value has a parent with `if {norm(node)}:` (line {int(node.lineno)}): such a parent disappears from the "
+                f"explanation, and explain() raises for a value all of whose parents are falsy (two empty operands, a "
+                f"copy of an empty value)", pm.path_of(cn), m.lineno, f"{cn}.{m.name}"))
+    res.samples = [{"bare_truthiness_tests_of_parents": [f"{m.name}:{int(n.lineno)}" for m, n in bare][:4],
+                    "classes_with_len_or_bool": sorted(falsy)}]
+    res.floor = 5
     return res
